@@ -69,11 +69,11 @@ def native_messages(ctx, cat):
             fl = c["fam"] == "float"
             b = c["bound"]
             if c["kind"] in ("gt", "ge"):
-                bad = "(%s as %s) - 1%s" % (b if not fl else b, c["ty"], ".0" if fl else "")
+                bad = ("(%s as %s) - ((%s as %s).abs() + 1.0)" % (b, c["ty"], b, c["ty"])) if fl else ("(%s as %s) - 1" % (b, c["ty"]))
                 if c["ty"].startswith("u") and b == "0":
                     bad = None if c["kind"] == "ge" else "0"
             else:
-                bad = "(%s as %s) + 1%s" % (b, c["ty"], ".0" if fl else "")
+                bad = ("(%s as %s) + ((%s as %s).abs() + 1.0)" % (b, c["ty"], b, c["ty"])) if fl else ("(%s as %s) + 1" % (b, c["ty"]))
             if bad is not None:
                 body.append('    { let bad = %s; println!("SERDE\\t%s\\t{}", serde_json::from_str::<%s>(&format!("{:?}", bad)).unwrap_err());' % (bad, c["id"], c["name"]))
                 body.append('      println!("FROMSTR\\t%s\\t{}", format!("{:?}", bad).parse::<%s>().unwrap_err()); }' % (c["id"], c["name"]))
